@@ -246,12 +246,23 @@ func (l *Linter) lintIfStatement(stmt *ast.IfStatement, ctx *context.Context) ty
 	l.lint(stmt.Consequence, ctx)
 
 	for _, a := range stmt.Another {
-		l.lintIfCondition(a.Condition, ctx)
-		l.lint(a.Consequence, ctx)
+		func(v *ast.IfStatement) {
+			// comments placed before "else if" belong to the else-if node
+			l.ignore.SetupStatement(v.GetMeta())
+			defer l.ignore.TeardownStatement(v.GetMeta())
+
+			l.lintIfCondition(v.Condition, ctx)
+			l.lint(v.Consequence, ctx)
+		}(a)
 	}
 
 	if stmt.Alternative != nil {
-		l.lint(stmt.Alternative.Consequence, ctx)
+		func(v *ast.ElseStatement) {
+			l.ignore.SetupStatement(v.GetMeta())
+			defer l.ignore.TeardownStatement(v.GetMeta())
+
+			l.lint(v.Consequence, ctx)
+		}(stmt.Alternative)
 	}
 
 	return types.NeverType
